@@ -27,11 +27,14 @@ class TrFin(Tr):
         k = n.get("kind")
         if k == "UnaryExprOrTypeTraitExpr" and n.get("name") == "sizeof":
             return SIZEOF.get((n.get("argType") or {}).get("qualType"))
-        if k == "BinaryOperator" and n.get("opcode") == "*" and not width(n)[1]:
+        if k == "BinaryOperator" and n.get("opcode") in ("*", "+", "-"):
+            # constant folding (values small enough that no C type involved can wrap)
             a, b = kids(n)
             ca, cb = self.const(a), self.const(b)
-            if ca is not None and cb is not None and ca * cb < 2 ** 31:
-                return ca * cb
+            if ca is not None and cb is not None and 0 <= ca < 2 ** 31 and 0 <= cb < 2 ** 31:
+                v = ca * cb if n["opcode"] == "*" else ca + cb if n["opcode"] == "+" else ca - cb
+                if 0 <= v < 2 ** 31:
+                    return v
         return None
 
     def copy(self, t, nm, buf, ivar=None):
